@@ -7,6 +7,17 @@ C33  Region outlining and procedure extraction preserve behaviour.
      d and not i  =>  out or inout   (written values are passed back),
      u and not i  =>  in or inout    (read values are passed in),
      and the three sets are pairwise disjoint.
+ R4  intent overrides are per variable: the second-stage expressions that apply
+     the pragma's ``in(..) / inout(..) / out(..)`` lists are pure set algebra and,
+     evaluated over all membership profiles (used, defined, imported, overridden
+     as in / inout / out), leave every variable that is not overridden exactly
+     where the inference put it and move an overridden one to the requested set
+     only.  (A whole-set test such as ``A or B`` makes one variable's
+     classification depend on whether *another* variable is overridden.)
+ R5  extracted internal procedures receive host variables whole: the function
+     branch and the subroutine branch of ``extract_internal_procedure`` build the
+     added keyword arguments with the same ``clone(...)`` keywords
+     (``dimensions=None``): a host array passed as ``a(n)`` is a single element.
  R2  procedure-relative statements: a ``RETURN`` inside an outlined region now
      leaves only the new subroutine.  Necessary condition as for C28: some function
      reachable from outline_region / outline_pragma_regions references ReturnStmt.
@@ -92,6 +103,78 @@ def run(ctx):
     ok = f'in {rpar}.uses_symbols' in src and f'in {rpar}.defines_symbols' in src
     (ctx.judge('R1', 'sets taken from region.uses_symbols / defines_symbols') if ok else
      ctx.violation('R1', 'outline_region:dataflow-source', f.where, 'used/defined sets are not taken from the region node'))
+    # ---- R4 overrides
+    ctx.rule('R4', 'outline_region: the override expressions are pure set algebra and act per variable (evaluated over all membership profiles)')
+    stage2 = {}
+    for n in f.node.body:
+        if isinstance(n, ast.Assign) and isinstance(n.targets[0], ast.Name) and n.targets[0].id in roles and n.targets[0].id in exprs \
+                and n.value is not exprs[n.targets[0].id] and isinstance(n.value, (ast.BinOp, ast.BoolOp)):
+            stage2.setdefault(n.targets[0].id, n.value)
+    pnames = {}
+    for k_ in ('in', 'inout', 'out'):
+        got = X.names_assigned_from(f.node, f"intent_map['{k_}']")
+        if got:
+            pnames[k_] = got[0]
+    if len(stage2) == 3 and len(pnames) == 3:
+        impure = [(k_, v_) for k_, v_ in stage2.items() if any(isinstance(x_, ast.BoolOp) or isinstance(x_, ast.IfExp) for x_ in ast.walk(v_))]
+        if impure:
+            k_, v_ = impure[0]
+            ctx.violation('R4', 'outline_region:override-not-per-variable', f'{f.module.relpath}:{v_.lineno}',
+                          f'`{k_} = {ast.unparse(v_)}` combines the sets with a whole-set test (`or` / conditional): whether an inferred '
+                          f'argument keeps its place depends on whether *some other* variable is overridden -- with `out(c)` every other '
+                          f'write-only variable of the region stops being passed back')
+        else:
+            atoms2 = [N_IN, N_IO, N_OUT, pnames['in'], pnames['inout'], pnames['out']]
+            bad2 = []
+            rows2 = 0
+            for env, val in SA.table(stage2, atoms2):
+                i0, io0, o0, pi, pio, po = (env[a_] for a_ in atoms2)
+                if sum((i0, io0, o0)) > 1 or sum((pi, pio, po)) > 1:
+                    continue            # the inferred sets are disjoint (R1); a variable is overridden at most once
+                rows2 += 1
+                IN2, IO2, OUT2 = val[N_IN], val[N_IO], val[N_OUT]
+                want = (pi, pio, po) if (pi or pio or po) else (i0, io0, o0)
+                if (IN2, IO2, OUT2) != want:
+                    bad2.append((env, (IN2, IO2, OUT2), want))
+            ctx.floor('R4', 'override profiles', rows2, 12)
+            if bad2:
+                env, got_, want = bad2[0]
+                ctx.violation('R4', 'outline_region:override-sets', f.where,
+                              f'after applying the intent overrides a variable with profile {env} is classified (in, inout, out) = {got_}, '
+                              f'expected {want}', facts={k_: ast.unparse(v_) for k_, v_ in stage2.items()})
+            else:
+                ctx.judge('R4', 'outline_region:override-sets', facts={k_: ast.unparse(v_) for k_, v_ in stage2.items()})
+    else:
+        raise AnalysisError('outline_region: the three override expressions / pragma sets were not found')
+    # ---- R5 internal procedures
+    ctx.rule('R5', 'extract_internal_procedure: the keyword arguments added to calls are built with identical clone(...) keywords in the '
+                   'function and the subroutine branch, including dimensions=None')
+    ei = m.get_function('loki/transformations/extract/internal.py', 'extract_internal_procedure')
+    clones = [c for c in ast.walk(ei.node) if isinstance(c, ast.Call) and isinstance(c.func, ast.Attribute) and c.func.attr == 'clone'
+              and any(k.arg == 'scope' and ast.unparse(k.value) == 'procedure' for k in c.keywords)
+              and isinstance(c.func.value, ast.Name)]
+    kwsets = [tuple(sorted((k.arg, ast.unparse(k.value)) for k in c.keywords)) for c in clones]
+    ctx.floor('R5', 'argument clones in extract_internal_procedure', len(clones), 2)
+    callarg = [ks for ks, c in zip(kwsets, clones)]
+    whole = [ks for ks in callarg if ('dimensions', 'None') in ks]
+    if len(set(callarg)) > 1 and len(whole) != len(callarg) and whole:
+        odd = [c for ks, c in zip(kwsets, clones) if ('dimensions', 'None') not in ks and c.lineno > min(c2.lineno for c2 in clones)]
+    else:
+        odd = []
+    # only the clones that feed call arguments (inside a comprehension building (name, value) pairs) must agree
+    pairs = [c for c in clones if any(isinstance(t_, ast.Tuple) and c in list(ast.walk(t_)) and len(t_.elts) == 2
+                                      for t_ in ast.walk(ei.node))]
+    pk = [tuple(sorted((k.arg, ast.unparse(k.value)) for k in c.keywords)) for c in pairs]
+    if len(pairs) >= 2 and len(set(pk)) == 1 and ('dimensions', 'None') in pk[0]:
+        ctx.judge('R5', 'extract_internal_procedure:call-argument-clones', facts={'keywords': list(pk[0]), 'sites': len(pairs)})
+    elif len(pairs) < 2:
+        raise AnalysisError('extract_internal_procedure: the (name, clone) pairs added to the calls were not found')
+    else:
+        badc = next(c for c, ks in zip(pairs, pk) if ('dimensions', 'None') not in ks) if any(('dimensions', 'None') not in ks for ks in pk) else pairs[-1]
+        ctx.violation('R5', 'extract_internal_procedure:call-argument-clones', f'{ei.module.relpath}:{badc.lineno}',
+                      f'the host variables added to the calls are cloned with different keywords in the two branches '
+                      f'({sorted(set(pk))}): without dimensions=None a host array is passed with its declared extents as subscripts '
+                      f'(`a=a(n)`, one element) and the extracted procedure reads beyond it')
     # ---- R2
     for name in ('outline_region', 'outline_pragma_regions'):
         g = m.get_function(OL, name)
@@ -135,6 +218,14 @@ def run(ctx):
 
 
 MUTANTS = [
+    Mutant('out-override-replaces-inferred', OL, "    region_out_args = (region_out_args - (pragma_in_args | pragma_inout_args)) | pragma_out_args",
+           "    region_out_args = pragma_out_args or (region_out_args - (pragma_in_args | pragma_inout_args))", expect=('R4', 'override-not-per-variable')),
+    Mutant('out-override-drops-inferred', OL, "    region_out_args = (region_out_args - (pragma_in_args | pragma_inout_args)) | pragma_out_args",
+           "    region_out_args = (region_out_args & (pragma_in_args | pragma_inout_args)) | pragma_out_args", expect=('R4', 'override-sets')),
+    Mutant('function-branch-keeps-dimensions', 'loki/transformations/extract/internal.py',
+           "                newkwargs = tuple((v.name, v.clone(dimensions=None, scope=procedure)) for v in vars_to_resolve)\n                call_map[call] = call.clone(kw_parameters=",
+           "                newkwargs = tuple((v.name, v.clone(scope=procedure)) for v in vars_to_resolve)\n                call_map[call] = call.clone(kw_parameters=",
+           expect=('R5', 'call-argument-clones')),
     Mutant('out-uses-or', OL, "    region_out_args = region_defines_symbols - region_uses_symbols - imported_symbols",
            "    region_out_args = region_defines_symbols | region_uses_symbols - imported_symbols", expect=('R1', 'argument-sets'), quick=True),
     Mutant('neutral-reordered', OL, "    region_inout_args = region_uses_symbols & region_defines_symbols - imported_symbols",
